@@ -191,7 +191,7 @@ Definition apply_write (st : shared) (w : option (str * option keyid)) : shared 
 
 Lemma step_state T st o : fst (step T st o) = if t_shared T then apply_write st (writes o) else st.
 Proof.
-  destruct o as [e alg|e typ m rs sigalg h|e q cert sigkey]; cbn [step writes apply_write].
+  destruct o as [e alg sk0|e typ m rs sigalg h|e q cert sigkey]; cbn [step writes apply_write].
   - unfold get_signer. destruct (sh_get st alg); destruct (t_shared T); reflexivity.
   - now destruct (t_shared T).
   - unfold verify_redirect_signature. destruct (lookup K_ALG (q_params q)) as [alg|]; [|now destruct (t_shared T)].
@@ -514,35 +514,122 @@ Qed.
 (* own key, provided no step between obtaining the handle and signing stores another key for that algorithm *)
 Lemma own_key_partial T st pre e a k0 mid typ m rs sigalg q : t_shared T = true ->
   Forall (keeps a e) mid ->
-  snd (step T (exec T st (pre ++ OGet e a :: mid)) (OSign e typ m rs sigalg (Some (a, k0)))) = OutSigned (Ok q) ->
+  snd (step T (exec T st (pre ++ OGet e a None :: mid)) (OSign e typ m rs sigalg (Some (a, k0)))) = OutSigned (Ok q) ->
   used_key (Ok q) = e.
 Proof.
   intros SH Hmid H. apply (sign_uses_last_writer T _ _ _ _ _ _ _ _ _ SH) in H as (o & Hg & ->). cbn [fst].
   assert (forall tr1 tr2 cur, last_write a (tr1 ++ tr2) cur = last_write a tr2 (last_write a tr1 cur)) as Happ.
   { induction tr1 as [|x tr1 IH]; intros tr2 cur; [reflexivity|]. cbn [app last_write]. apply IH. }
-  rewrite Happ. cbn [last_write writes]. rewrite str_eqb_refl.
+  rewrite Happ. cbn [last_write writes or_key]. rewrite str_eqb_refl.
   destruct (last_write_keeps a e mid Hmid (Some e) (or_intror eq_refl)) as [E|E]; rewrite E.
   - (* cannot be None: it started from Some e *)
     exfalso. now apply (last_write_some a mid e).
   - reflexivity.
 Qed.
 
-(* fresh signer objects: the handle an entity obtained signs with that entity's key, in ANY state, so whatever
-   anybody does in between *)
-Lemma own_key_fresh T st0 e a h : t_shared T = false ->
-  snd (step T st0 (OGet e a)) = OutHandle (Some h) ->
-  forall st typ m rs sigalg q,
-    snd (step T st (OSign e typ m rs sigalg (Some h))) = OutSigned (Ok q) -> used_key (Ok q) = e.
+(* fresh signer objects: the handle an entity obtained signs with the key it was asked for - the entity's own key
+   for the ordinary call, the sigkey for a call with a sigkey - in ANY state, so whatever anybody (the entity itself
+   included) did before or does in between, with or without a sigkey *)
+Lemma handle_key_fresh T st0 e a sk h : t_shared T = false ->
+  snd (step T st0 (OGet e a sk)) = OutHandle (Some h) ->
+  forall st e' typ m rs sigalg q,
+    snd (step T st (OSign e' typ m rs sigalg (Some h))) = OutSigned (Ok q) -> used_key (Ok q) = or_key sk e.
 Proof.
-  intros F Hget st typ m rs sigalg q H. cbn [step snd] in *.
+  intros F Hget st e' typ m rs sigalg q H. cbn [step snd] in *.
   unfold get_signer in Hget. destruct (sh_get st0 a); cbn [snd] in Hget; [|discriminate].
   injection Hget as <-. injection H as H. apply sign_used_key in H as (o & _ & -> & _).
   unfold handle_key. now rewrite F.
 Qed.
 
-Lemma get_handle_shape T st e a h : snd (step T st (OGet e a)) = OutHandle (Some h) -> h = (a, e).
+Lemma own_key_fresh T st0 e a h : t_shared T = false ->
+  snd (step T st0 (OGet e a None)) = OutHandle (Some h) ->
+  forall st typ m rs sigalg q,
+    snd (step T st (OSign e typ m rs sigalg (Some h))) = OutSigned (Ok q) -> used_key (Ok q) = e.
+Proof. intros F Hget st typ m rs sigalg q H. exact (handle_key_fresh T st0 e a None h F Hget st e typ m rs sigalg q H). Qed.
+
+Lemma get_handle_shape T st e a sk h : snd (step T st (OGet e a sk)) = OutHandle (Some h) -> h = (a, or_key sk e).
 Proof.
   cbn [step]. unfold get_signer. destruct (sh_get st a); cbn [snd]; [|discriminate]. intros H. now injection H as <-.
+Qed.
+
+(* ---- positions in ONE trace: the i-th output of a run is the step taken in the state after the first i steps ---- *)
+Lemma run_nth T tr : forall st i o, nth_error tr i = Some o ->
+  nth_error (run T st tr) i = Some (snd (step T (exec T st (firstn i tr)) o)).
+Proof.
+  induction tr as [|o0 tr IH]; intros st i o H; [destruct i; discriminate|].
+  cbn [run]. destruct (step T st o0) as [st' x] eqn:E. destruct i as [|i].
+  - cbn in H. injection H as <-. cbn [nth_error firstn exec]. now rewrite E.
+  - cbn [nth_error firstn exec] in *. rewrite E. cbn [fst]. now apply IH.
+Qed.
+
+(* every Sign step of a trace made with the handle an EARLIER ordinary get_signer step of the same trace returned to
+   entity e carries e's key, whatever the other steps of the trace are (sigkey calls of e itself included) *)
+Lemma trace_signs_own T tr st i j e a h typ m rs sigalg q : t_shared T = false ->
+  nth_error tr i = Some (OGet e a None) -> nth_error (run T st tr) i = Some (OutHandle (Some h)) ->
+  nth_error tr j = Some (OSign e typ m rs sigalg (Some h)) -> nth_error (run T st tr) j = Some (OutSigned (Ok q)) ->
+  used_key (Ok q) = e.
+Proof.
+  intros F Hi Ri Hj Rj.
+  rewrite (run_nth T tr st i _ Hi) in Ri. rewrite (run_nth T tr st j _ Hj) in Rj.
+  assert (snd (step T (exec T st (firstn i tr)) (OGet e a None)) = OutHandle (Some h)) as Ri' by congruence.
+  assert (snd (step T (exec T st (firstn j tr)) (OSign e typ m rs sigalg (Some h))) = OutSigned (Ok q)) as Rj' by congruence.
+  exact (own_key_fresh T _ e a h F Ri' _ typ m rs sigalg q Rj').
+Qed.
+
+(* ---- apply_binding = get_signer ; sign back to back: the caller's own key in EVERY state, for both kinds of tables ---- *)
+Lemma apply_binding_own_key T st e resp m rs alg q :
+  snd (apply_binding_redirect T st e resp m rs true (Some alg)) = Ok q -> q_sig q <> None -> used_key (Ok q) = e.
+Proof.
+  unfold apply_binding_redirect. destruct (is_nil alg).
+  - cbn [snd]. unfold http_redirect_message.
+    destruct (_ || _); [|discriminate]. intros H. injection H as <-. cbn [q_sig]. congruence.
+  - destruct (sh_get st alg) as [o|] eqn:Eg.
+    + destruct (get_signer_entry T st e alg None o Eg) as (st' & o' & -> & Eg' & _ & Hk). cbn [snd or_key] in *.
+      intros H _. apply sign_used_key in H as (o'' & Hg & -> & _). cbn [fst] in Hg. rewrite Eg' in Hg. injection Hg as <-. exact Hk.
+    + unfold get_signer. rewrite Eg. cbn [snd]. unfold http_redirect_message.
+      destruct (_ || _); [|discriminate]. intros H. injection H as <-. cbn [q_sig]. congruence.
+Qed.
+
+(* ---- scripts (what the schedule unit compares with the real objects): every ordinary Sign / apply_binding step
+   of every script shows the acting entity's own key, nothing signed, or an exception.  Induction over the script;
+   the invariant says every ordinary handle an entity holds was made from that entity's key. ---- *)
+Definition held_ok (held : held_t) : Prop :=
+  forall e a h, held_handle e a false held = Some h -> snd h = Some e.
+
+Lemma show_signed_own T st e typ m rs alg oh :
+  t_shared T = false -> (forall h, oh = Some h -> snd h = Some e) ->
+  let v := show_out (OutSigned (http_redirect_message T st typ m rs alg oh)) in
+  v = VL [VZ 1%Z; VZ (Z.of_N e)] \/ v = VL [VZ 1%Z; VNone] \/ exists err, v = VL [VZ 1%Z; VE err].
+Proof.
+  intros F Hoh. cbn [show_out]. destruct (http_redirect_message T st typ m rs alg oh) as [q|err] eqn:E.
+  - destruct oh as [h|].
+    + apply sign_used_key in E as (o & _ & -> & _). unfold handle_key. rewrite F, (Hoh h eq_refl). left. reflexivity.
+    + right. left. unfold http_redirect_message in E. destruct (_ || _); [|discriminate]. now injection E as <-.
+  - right. right. now exists err.
+Qed.
+
+Lemma script_own T : t_shared T = false ->
+  forall s st made held, held_ok held -> Forall2 own_step s (run_script T st made held s).
+Proof.
+  intros F. induction s as [|x s IH]; intros st made held Hh; [constructor|].
+  destruct x as [e alg|e alg k|e resp m rs alg|e resp m rs alg|e resp m rs alg|e alg cert sk]; cbn [run_script].
+  - destruct (step T st (OGet (Some e) alg None)) as [st' x] eqn:E. constructor; [exact I|]. apply IH.
+    intros e0 a0 h0. cbn [held_handle]. destruct ((e0 =? e) && str_eqb a0 alg && Bool.eqb false false) eqn:C; [|apply Hh].
+    intros Hx. apply andb_true_iff in C as [C _]. apply andb_true_iff in C as [C _]. apply N.eqb_eq in C. subst e0.
+    assert (snd (step T st (OGet (Some e) alg None)) = OutHandle (Some h0)) as G.
+    { rewrite E. cbn [snd]. destruct x; cbn [out_handle] in Hx; try discriminate. now subst. }
+    apply get_handle_shape in G. now subst h0.
+  - destruct (step T st (OGet (Some e) alg (Some k))) as [st' x] eqn:E. constructor; [exact I|]. apply IH.
+    intros e0 a0 h0. cbn [held_handle]. rewrite andb_false_r. apply Hh.
+  - cbn [step]. constructor; [|now apply IH].
+    apply (show_signed_own T st e _ m rs alg _ F). intros h. apply Hh.
+  - cbn [step]. constructor; [exact I|now apply IH].
+  - destruct (step T st (OGet (Some e) alg None)) as [st1 x1] eqn:E. cbn [step]. constructor; [|now apply IH].
+    apply (show_signed_own T st1 e _ m rs alg _ F). intros h Hx.
+    assert (snd (step T st (OGet (Some e) alg None)) = OutHandle (Some h)) as G.
+    { rewrite E. cbn [snd]. destruct x1; cbn [out_handle] in Hx; try discriminate. now subst. }
+    apply get_handle_shape in G. now subst h.
+  - destruct (step T st (OVerify (Some e) (find_query alg made) cert sk)) as [st' x] eqn:E. constructor; [exact I|now apply IH].
 Qed.
 
 (* no step adds or removes an algorithm *)
